@@ -9,7 +9,8 @@ FIRST = {  # outcome of the very first confrontation (before any strengthening),
  "C16-a": "caught", "C16-b": "caught", "C01-a": "caught", "C01-b": "missed", "C03-a": "caught", "C03-b": "caught", "C11-a": "caught", "C11-b": "missed",
  "C12-a": "caught", "C12-b": "caught", "C13-a": "caught", "C13-b": "caught", "C14-a": "caught", "C14-b": "caught", "C17-a": "missed", "C17-b": "missed",
  "C18-a": "caught", "C18-b": "caught"}
-ALSO = {"C02-a": ["C10"], "C07-b": ["C09"], "C02-b": ["C01"]}
+FIRST.update({'C01-c': 'caught', 'C01-d': 'missed', 'C02-c': 'missed', 'C02-d': 'missed', 'C03-c': 'missed', 'C03-d': 'missed', 'C04-c': 'caught', 'C04-d': 'missed', 'C05-c': 'caught', 'C05-d': 'caught', 'C06-c': 'caught', 'C06-d': 'caught', 'C07-c': 'caught', 'C07-d': 'caught', 'C08-c': 'caught', 'C08-d': 'caught', 'C09-c': 'caught', 'C09-d': 'caught', 'C10-c': 'missed', 'C10-d': 'caught', 'C12-c': 'missed', 'C12-d': 'missed', 'C13-c': 'missed', 'C13-d': 'caught', 'C14-c': 'missed', 'C14-d': 'missed', 'C15-c': 'caught', 'C15-d': 'missed', 'C16-c': 'missed', 'C16-d': 'missed', 'C17-c': 'missed', 'C17-d': 'missed', 'C18-c': 'caught', 'C18-d': 'caught', 'C19-c': 'missed', 'C19-d': 'caught', 'C20-c': 'caught', 'C20-d': 'caught', 'C11-c': 'missed', 'C11-d': 'missed'})
+ALSO = {"C02-a": ["C10"], "C07-b": ["C09"], "C02-b": ["C01"], "C01-d": ["C10"], "C02-d": ["C01"], "C02-c": ["C05"], "C14-d": ["C16"]}
 sel = sys.argv[1:]
 for d in sorted(glob.glob(os.path.join(V, "seeded", "*"))):
     name = os.path.basename(d)
